@@ -32,6 +32,7 @@ func init() {
 	generators["lateanswer"] = genLateAnswer
 	generators["lateregister"] = genLateRegister
 	generators["longprobe"] = genLongProbe
+	generators["twoinflight"] = genTwoInFlight
 }
 
 func anyLatency(r rng, h time.Duration) Latency {
@@ -1597,10 +1598,20 @@ func genHoldRace(r rng, k int) *Spec {
 		op = hrMetrics[r.IntN(len(hrMetrics))]
 	case x.HealthOn && r.chance(0.15):
 		op = "health:" + r.pickS("h", "u")
+	case r.chance(0.1):
+		op = "log:?new" // a log line the catalogue does not know: introduced by a change
+	case r.chance(0.1):
+		op = "log:*"
 	default:
 		op = "log:" + hrLogs[(k/len(hrBases))%len(hrLogs)]
 	}
+	for _, m := range hrLogs {
+		KnownLogs[m] = true
+	}
 	race := hrRaces[r.IntN(len(hrRaces))]
+	if r.chance(0.15) {
+		race = "none"
+	}
 	y := x.Name // the racing event usually concerns the held instance itself
 	if len(s.Insts) > 1 && r.chance(0.25) {
 		y = s.Insts[r.IntN(len(s.Insts))].Name
@@ -1629,23 +1640,38 @@ func genHoldRace(r rng, k int) *Spec {
 		ra = Action{Kind: "outdel", Inst: x.Group}
 	case "outexpire":
 		ra = Action{Kind: "outexpire", Inst: x.Group}
+	case "none":
+		ra = Action{Kind: "sleep"}
 	default:
 		ra = Action{Kind: "conn", Inst: y, Val: race[4:]}
 	}
 	switch race {
-	case "stop", "stopdel", "stopnowait", "stopshort", "start", "restart":
+	case "stop", "stopdel", "stopnowait", "stopshort", "start", "restart", "none":
 		// API use keeps the premises of the base class
 	default:
 		s.Benign = false
 		s.Prompt = false
 	}
-	s.Breaks = append(s.Breaks, BreakSpec{Name: "hr", Client: x.Name, Op: op, Nth: 1 + r.IntN(4), Phase: hrPhase(op), Armed: true})
-	s.Reactions = append(s.Reactions, Reaction{Break: "hr", Actions: []Action{
-		ra,
-		{Kind: "spin", D: r.pickD(200*time.Microsecond, 2*ms, 10*ms)},
-		{Kind: "release", Break: "hr"},
-	}})
-	s.Tags = append(s.Tags, "holdrace", "base:"+base, op, "race:"+race)
+	s.Breaks = append(s.Breaks, BreakSpec{Name: "hr", Client: x.Name, Op: op, Nth: 1, Phase: hrPhase(op), Armed: true})
+	nth := 1 + r.IntN(4)
+	if op == "log:*" {
+		nth = 1 + r.IntN(80)
+	}
+	s.Breaks[len(s.Breaks)-1].Nth = nth
+	acts := []Action{ra, {Kind: "spin", D: r.pickD(200*time.Microsecond, 2*ms, 10*ms)}}
+	nap := time.Duration(0)
+	if r.chance(0.4) {
+		// a slow sink: the call stays held while virtual time passes (heartbeats tick, records
+		// expire, successors are elected); skipped at run time if the call turns out to sit
+		// inside the election's critical section
+		nap = []time.Duration{x.H * 6 / 10, x.H * 12 / 10, x.H * 5 / 2, s.TTL + x.H}[r.IntN(4)]
+		acts = append(acts, Action{Kind: "nap", Inst: x.Name, D: nap})
+		s.Benign = false
+		s.Prompt = false
+	}
+	acts = append(acts, Action{Kind: "release", Break: "hr"})
+	s.Reactions = append(s.Reactions, Reaction{Break: "hr", Actions: acts})
+	s.Tags = append(s.Tags, "holdrace", "base:"+base, op, "race:"+race, fmt.Sprintf("nap:%v", nap))
 	return s
 }
 
@@ -1663,8 +1689,8 @@ func hrPhase(op string) string {
 // instant and runs to completion; then A continues. Exactly one demotion callback.
 // ---------------------------------------------------------------------------
 
-var tcA = []string{"heartbeat", "health", "validation", "connection", "reconnect", "watcher"}
-var tcB = []string{"ordemote", "forge", "stop", "stopctx", "outdel-ordemote"}
+var tcA = []string{"heartbeat", "health", "validation", "connection", "reconnect", "watcher", "takeover"}
+var tcB = []string{"ordemote", "forge", "stop", "stopctx", "outdel-ordemote", "tick"}
 
 // TwoCauseTotal is the size of the enumeration.
 func TwoCauseTotal() int { return len(tcA) * len(tcB) * 3 }
@@ -1714,6 +1740,17 @@ func genTwoCause(r rng, k int) *Spec {
 	case "watcher":
 		msg = "leadership_lost_via_watcher"
 		s.Actions = append(s.Actions, Action{At: t0, Kind: "output", Inst: "g0", Val: `{"id":"intruder","token":"w"}`})
+	case "takeover":
+		// a real preemption: i0 (priority 1) follows i2, succeeds it (so that its watch loop is
+		// running while it leads), and is then preempted by i1 (priority 2, takeover enabled)
+		msg = "leadership_lost_via_watcher"
+		s.NoPreempt = false
+		s.Insts = mkInsts(3, 1, h)
+		s.Insts[0].Priority, s.Insts[1].Priority, s.Insts[2].Priority = 1, 2, 1
+		s.Insts[1].Takeover = true
+		s.Actions = []Action{{At: 10 * ms, Kind: "start", Inst: "i2"}, {At: 300 * ms, Kind: "start", Inst: "i0"},
+			{At: 1 * sec, Kind: "stop", Inst: "i2", Stop: &StopVariant{DeleteKey: true, Wait: true, Timeout: 5 * sec}},
+			{At: t0, Kind: "start", Inst: "i1"}}
 	}
 	s.Breaks = []BreakSpec{{Name: "tc", Client: "i0", Op: "log:" + msg, Nth: 1, Phase: "sink", Armed: true}}
 	var rb []Action
@@ -1728,6 +1765,9 @@ func genTwoCause(r rng, k int) *Spec {
 		rb = []Action{{Kind: "stop", Inst: "i0", Stop: &StopVariant{Plain: true}}}
 	case "stopctx":
 		rb = []Action{{Kind: "stop", Inst: "i0", Stop: &StopVariant{DeleteKey: r.chance(0.5), Wait: r.chance(0.5), Timeout: 5 * sec}}}
+	case "tick":
+		// no second cause: the sink is just slow, and the instance's heartbeat ticks meanwhile
+		rb = []Action{{Kind: "nap", Inst: "i0", D: h * 13 / 10}}
 	}
 	rb = append(rb, Action{Kind: "spin", D: spin}, Action{Kind: "release", Break: "tc"})
 	s.Reactions = []Reaction{{Break: "tc", Actions: rb}}
@@ -1899,6 +1939,61 @@ func genLongProbe(r rng, k int) *Spec {
 		Action{After: 2*h + 1200*ms, Kind: "release", Break: "lp"},
 		Action{After: ms, Kind: "waitapi", Inst: "i0", D: 5 * sec},
 	)
+	s.Duration = 6 * h
+	s.Sample = sampleFor(h)
+	return s
+}
+
+// ---------------------------------------------------------------------------
+// twoinflight: a follower is stopped while TWO of its store calls are in flight - the
+// periodic check's read (served while the key was absent) and an acquisition round's
+// Create (applied successfully). The answers arrive after the stop call has taken
+// effect, in either order. (The round is first held at its own log line, so that the
+// periodic check's tick falls before its Create - no alignment of timers needed.)
+// ---------------------------------------------------------------------------
+
+// TwoInFlightTotal is the size of the enumeration.
+func TwoInFlightTotal() int { return 4 * 2 * 3 }
+
+func genTwoInFlight(r rng, k int) *Spec {
+	idx := k % TwoInFlightTotal()
+	sv := []StopVariant{{Plain: true}, {DeleteKey: true, Wait: true, Timeout: 5 * sec}, {DeleteKey: false, Timeout: 200 * ms}, {DeleteKey: true, Timeout: 200 * ms}}[idx%4]
+	idx /= 4
+	getFirst := idx%2 == 0
+	idx /= 2
+	gap := []time.Duration{ms, 20 * ms, 300 * ms}[idx%3]
+	h := r.pickD(500*ms, 1*sec, 2*sec)
+	s := &Spec{TTL: 3 * h, NoPreempt: true, Tags: []string{"lifecycle", "twoinflight"}}
+	s.Lat = Latency{Min: ms, Max: r.pickD(2*ms, 10*ms)}
+	s.Insts = mkInsts(3, 1, h)
+	s.Breaks = []BreakSpec{
+		{Name: "ra", Client: "i1", Op: "log:attempting_acquire_with_retry", Nth: 1, Phase: "sink"},
+		{Name: "pg", Client: "i1", Op: "Get", Nth: 1, Phase: "resp"},
+		{Name: "cr", Client: "i1", Op: "Create", Nth: 1, Phase: "resp"},
+	}
+	s.Actions = append(s.Actions, Action{At: 10 * ms, Kind: "start", Inst: "i0"}, Action{At: 300 * ms, Kind: "start", Inst: "i1"},
+		Action{At: 3 * sec, Kind: "arm", Break: "ra"}, Action{Chain: true, Kind: "arm", Break: "pg"}, Action{Chain: true, Kind: "arm", Break: "cr"},
+		Action{Chain: true, Kind: "stop", Inst: "i0", Stop: &StopVariant{DeleteKey: true, Wait: true, Timeout: 5 * sec}},
+		Action{After: ms, Kind: "waitbreak", Break: "ra", D: 3 * sec},
+		Action{After: ms, Kind: "waitbreak", Break: "pg", D: 3 * sec},
+		Action{After: ms, Kind: "release", Break: "ra"},
+		Action{After: ms, Kind: "waitbreak", Break: "cr", D: 3 * sec},
+		Action{After: ms, Kind: "stop", Inst: "i1", Stop: &sv},
+	)
+	first, second := "pg", "cr"
+	if !getFirst {
+		first, second = "cr", "pg"
+	}
+	s.Actions = append(s.Actions,
+		Action{After: gap, Kind: "release", Break: first},
+		Action{After: gap, Kind: "release", Break: second},
+		Action{After: ms, Kind: "waitapi", Inst: "i1", D: 8 * sec},
+		// a successor that starts when the record left behind has expired
+		Action{After: s.TTL + h, Kind: "start", Inst: "i2"},
+	)
+	// (with the short gaps every answer still arrives within H/2 of its request: the
+	// fault-free premise of C02/C07 holds)
+	s.Benign = gap <= 20*ms
 	s.Duration = 6 * h
 	s.Sample = sampleFor(h)
 	return s
